@@ -5,9 +5,12 @@
    MayFail: the input iterable may raise while being fed (kill is set, the exception
    propagates after the join).
    SentinelRule = "perworker" is the design; "one" (a single shared sentinel) is explored
-   by the driver to show that the termination property is not vacuous.                  *)
+   by the driver to show that the termination property is not vacuous.
+   QuitOnEmpty = TRUE is a worker function that stops consuming its queue iterator after an
+   item that produces no result (e.g. a regeneration worker returning on a package with
+   broken metadata); it must violate ExactlyOnceAtReturn (non-vacuity).                    *)
 EXTENDS ThreadPool, TLC
-CONSTANTS MaxItems, MaxThreads, MayFail, SentinelRule
+CONSTANTS MaxItems, MaxThreads, MayFail, SentinelRule, QuitOnEmpty
 
 VARIABLES n, threads, haslen, out,      \* the call: chosen in Init, then constant
           fpc, started, fed, sent, q, kill, failed,
@@ -57,7 +60,7 @@ Get(w) == /\ wpc[w] = "get" /\ q # <<>>
              ELSE /\ witem' = [witem EXCEPT ![w] = Head(q)]
                   /\ wleft' = [wleft EXCEPT ![w] = out[Head(q)]]
                   /\ taken' = [taken EXCEPT ![Head(q)] = @ + 1]
-                  /\ wpc' = [wpc EXCEPT ![w] = IF out[Head(q)] = 0 THEN "check" ELSE "emit"]
+                  /\ wpc' = [wpc EXCEPT ![w] = IF out[Head(q)] = 0 THEN (IF QuitOnEmpty THEN "done" ELSE "check") ELSE "emit"]
           /\ UNCHANGED <<cfgv, fpc, started, fed, sent, kill, failed, results>>
 EmitOne(w) == /\ wpc[w] = "emit"
               /\ results' = BagAdd(results, <<witem[w], wleft[w]>>)
